@@ -38,6 +38,7 @@ type Mode struct {
 	StopAtMutations bool   // SIGSTOP the child after every rename/unlink (the parent snapshots, then SIGCONTs)
 	RenameFail      string // strace `when=` expression for failing renames with EIO, e.g. "2+5" ("" = none)
 	UnlinkFail      string // same for unlink/rmdir
+	OpenFail        string // same for openat, failing with EMFILE (read faults: a file that cannot be opened right now)
 	KillAt          int    // >0: SIGKILL the child on entering its KillAt-th rename/unlink (the call is not executed)
 	WriteKillAt     int    // >0: SIGKILL the child on entering its WriteKillAt-th write(2) (a kill in the middle of writing files)
 }
@@ -67,6 +68,9 @@ func Start(mode Mode, logPath string, env []string, bin string, args ...string) 
 	}
 	if mode.RenameFail != "" {
 		sa = append(sa, "-e", "inject="+renameSet+":error=EIO:when="+mode.RenameFail)
+	}
+	if mode.OpenFail != "" {
+		sa = append(sa, "-e", "inject=openat:error=EMFILE:when="+mode.OpenFail)
 	}
 	if mode.UnlinkFail != "" {
 		sa = append(sa, "-e", "inject="+unlinkSet+":error=EIO:when="+mode.UnlinkFail)
